@@ -1,5 +1,6 @@
 import ModVerif.Drv.MainLoop
 import ModVerif.Drv.Client
+import ModVerif.Drv.GenClient
 open ModVerif.Drv
 
-def main : IO Unit := runMain [("client", Client.handle)]
+def main : IO Unit := runMain [("client", Client.handle), ("gclient", GenClient.handle)]
